@@ -75,12 +75,16 @@ Record sstore := SStore {
 }.
 Definition meta_of (x : sstore) : meta := Meta (s_addr x) (s_state x) (s_pd x) (s_labels x) (s_ver x).
 
+(* the part of the replication configuration the store operations read: location-labels, strictly-match-label,
+   enable-placement-rules (changed by the operation OSetEnv, i.e. a replication-config update) *)
+Record env := Env { e_loc : list string; e_strict : bool; e_pr : bool }.
 Record state := State {
   served : amap sstore;              (* BasicCluster.Stores *)
   st_meta : amap meta;               (* storage: raft/s/<id> *)
   st_lw : amap Z; st_rw : amap Z;    (* storage: schedule/store_weight/<id>/{leader,region} *)
   regions : amap (list Z);           (* region id -> store ids holding a peer *)
-  cver : ver                         (* cluster version (PersistOptions) *)
+  cver : ver;                        (* cluster version (PersistOptions) *)
+  cenv : env                         (* the replication settings PutStore looks at *)
 }.
 
 (* ---------- faults ---------- *)
@@ -112,11 +116,14 @@ Inductive op :=
 | OWeight (id : Z) (lw rw : Z) (f : fault)
 | OClean (order : list Z) (f : fault)               (* RemoveTombStoneRecords; order = map iteration order the run took *)
 | OHeartbeat (id : Z) (f : fault)                   (* gRPC StoreHeartbeat *)
-| ORegion (r : Z) (stores : list Z).                (* region heartbeat: region r now has peers on these stores *)
+| ORegion (r : Z) (stores : list Z)                 (* region heartbeat: region r now has peers on these stores *)
+| OSetEnv (e : env).                                (* the replication settings change (location-labels, strictly-match-label, enable-placement-rules) *)
 
 Inductive res :=
 | ROk | RNone | RNotFound | RTombstone | RDestroyed | RIsUp | RHasPeers | RInvalid | RVersion | RDupAddr
-| RStorage | RGrpcTombstone | RPanic | RBad.
+| RStorage | RGrpcTombstone | RPanic | RBad
+| RLabel                     (* checkStoreLabels with strictly-match-label: a location label is missing or a label key is unknown *)
+| RTiFlash.                  (* gRPC PutStore of a TiFlash store while placement rules are disabled *)
 
 Record view := View {
   v_addr : string; v_state : sstate; v_pd : bool; v_labels : list label; v_ver : ver;
@@ -129,21 +136,21 @@ Definition is_tomb (x : sstore) : bool := sstate_eqb (s_state x) Tombstone.
 Definition live (x : sstore) : bool := negb (is_tomb x) && negb (s_pd x).
 
 Definition set_served (s : state) (id : Z) (x : sstore) : state :=
-  State (aset (served s) id x) (st_meta s) (st_lw s) (st_rw s) (regions s) (cver s).
+  State (aset (served s) id x) (st_meta s) (st_lw s) (st_rw s) (regions s) (cver s) (cenv s).
 Definition del_served (s : state) (id : Z) : state :=
-  State (adel (served s) id) (st_meta s) (st_lw s) (st_rw s) (regions s) (cver s).
+  State (adel (served s) id) (st_meta s) (st_lw s) (st_rw s) (regions s) (cver s) (cenv s).
 Definition write_meta (s : state) (id : Z) (m : meta) : state :=
-  State (served s) (aset (st_meta s) id m) (st_lw s) (st_rw s) (regions s) (cver s).
+  State (served s) (aset (st_meta s) id m) (st_lw s) (st_rw s) (regions s) (cver s) (cenv s).
 Definition del_meta (s : state) (id : Z) : state :=
-  State (served s) (adel (st_meta s) id) (st_lw s) (st_rw s) (regions s) (cver s).
+  State (served s) (adel (st_meta s) id) (st_lw s) (st_rw s) (regions s) (cver s) (cenv s).
 Definition write_lw (s : state) (id w : Z) : state :=
-  State (served s) (st_meta s) (aset (st_lw s) id w) (st_rw s) (regions s) (cver s).
+  State (served s) (st_meta s) (aset (st_lw s) id w) (st_rw s) (regions s) (cver s) (cenv s).
 Definition write_rw (s : state) (id w : Z) : state :=
-  State (served s) (st_meta s) (st_lw s) (aset (st_rw s) id w) (regions s) (cver s).
+  State (served s) (st_meta s) (st_lw s) (aset (st_rw s) id w) (regions s) (cver s) (cenv s).
 Definition set_cver (s : state) (v : ver) : state :=
-  State (served s) (st_meta s) (st_lw s) (st_rw s) (regions s) v.
+  State (served s) (st_meta s) (st_lw s) (st_rw s) (regions s) v (cenv s).
 Definition set_regions (s : state) (r : amap (list Z)) : state :=
-  State (served s) (st_meta s) (st_lw s) (st_rw s) r (cver s).
+  State (served s) (st_meta s) (st_lw s) (st_rw s) r (cver s) (cenv s).
 
 (* putStoreLocked: SaveStore (write number idx of this op on this store), then the cache *)
 Definition put_locked (s : state) (id : Z) (x : sstore) (f : fault) (idx : nat) : state * bool :=
@@ -168,6 +175,17 @@ Definition version_change (s : state) : state :=
 Definition tree_count (s : state) (id : Z) : Z :=
   Z.of_nat (length (filter (fun e : Z * list Z => existsb (Z.eqb id) (snd e)) (regions s))).
 
+(* checkStoreLabels: only with strictly-match-label an error; StoreInfo.GetLabelValue folds case, the key set does not *)
+Definition label_value (ls : list label) (k : string) : string :=
+  match find (fun l : label => fold_eq (fst l) k) ls with Some l => snd l | None => "" end.
+Definition labels_rejected (e : env) (ls : list label) : bool :=
+  e_strict e && (existsb (fun k => String.eqb (label_value ls k) "") (e_loc e)
+                 || existsb (fun l : label => negb (existsb (String.eqb (fst l)) (e_loc e))) ls).
+Definition is_tiflash (ls : list label) : bool :=
+  existsb (fun l : label => String.eqb (fst l) "engine" && String.eqb (snd l) "tiflash") ls.
+Definition set_env (s : state) (e : env) : state :=
+  State (served s) (st_meta s) (st_lw s) (st_rw s) (regions s) (cver s) e.
+
 Definition dup_addr (s : state) (id : Z) (a : string) : bool :=
   existsb (fun e : Z * sstore => live (snd e) && negb (fst e =? id) && String.eqb (s_addr (snd e)) a) (served s).
 
@@ -182,10 +200,12 @@ Definition put_impl (s : state) (p : payload) (force : bool) (f : fault) : state
     match sv s (p_id p) with
     | None =>
         let x := SStore (p_addr p) (p_state p) (p_pd p) (p_labels p) v 1 1 0 false in
+        if labels_rejected (cenv s) (p_labels p) then (s, RLabel) else
         let '(s1, ok) := put_locked s (p_id p) x f 0 in (s1, if ok then ROk else RStorage)
     | Some old =>
         let ls := if force then p_labels p else merge_labels (s_labels old) (p_labels p) in
         let x := SStore (p_addr p) (s_state old) (s_pd old) ls v (s_lw old) (s_rw old) (s_rcf old) (s_hbp old) in
+        if labels_rejected (cenv s) ls then (s, RLabel) else
         let '(s1, ok) := put_locked s (p_id p) x f 0 in (s1, if ok then ROk else RStorage)
     end
   end.
@@ -255,7 +275,7 @@ Definition restore_w (m : amap Z) (id : Z) (old : option Z) : amap Z :=
   match old with Some w => aset m id w | None => adel m id end.
 Definition restore_weights (s s0 : state) (id : Z) : state :=   (* s0: the state whose weight keys are to be restored in s *)
   State (served s) (st_meta s) (restore_w (st_lw s) id (aget (st_lw s0) id)) (restore_w (st_rw s) id (aget (st_rw s0) id))
-        (regions s) (cver s).
+        (regions s) (cver s) (cenv s).
 
 (* SetStoreWeight: leader key (write 0), region key (write 1), meta record (write 2).  When one of them fails the two
    weight keys are put back: by SaveStoreWeight itself for its own writes, by SetStoreWeight (which saves the served
@@ -279,10 +299,10 @@ Definition do_weight (s : state) (id lw rw : Z) (f : fault) : state * res :=
 (* Storage.DeleteStore: leader key (write 0), region key (write 1), record (write 2); the keys are put back if one fails *)
 Definition delete_store (s : state) (id : Z) (f : fault) : state * bool :=
   let '(a0, ok0) := wr f id 0 in
-  let s0 := if a0 then State (served s) (st_meta s) (adel (st_lw s) id) (st_rw s) (regions s) (cver s) else s in
+  let s0 := if a0 then State (served s) (st_meta s) (adel (st_lw s) id) (st_rw s) (regions s) (cver s) (cenv s) else s in
   if negb ok0 then (restore_weights s0 s id, false) else
   let '(a1, ok1) := wr f id 1 in
-  let s1 := if a1 then State (served s0) (st_meta s0) (st_lw s0) (adel (st_rw s0) id) (regions s0) (cver s0) else s0 in
+  let s1 := if a1 then State (served s0) (st_meta s0) (st_lw s0) (adel (st_rw s0) id) (regions s0) (cver s0) (cenv s0) else s0 in
   if negb ok1 then (restore_weights s1 s id, false) else
   let '(a2, ok2) := wr f id 2 in
   let s2 := if a2 then del_meta s1 id else s1 in
@@ -338,9 +358,10 @@ Definition run_cmd (s : state) (o : op) : state * res :=
   match o with
   | OPut grpc p f =>
       if grpc then
+        let tiflash_guard := negb (e_pr (cenv s)) && is_tiflash (p_labels p) in
         match sv s (p_id p) with
-        | Some x => if is_tomb x then (s, RGrpcTombstone) else do_put s p f
-        | None => do_put s p f
+        | Some x => if is_tomb x then (s, RGrpcTombstone) else if tiflash_guard then (s, RTiFlash) else do_put s p f
+        | None => if tiflash_guard then (s, RTiFlash) else do_put s p f
         end
       else do_put s p f
   | OLabels id ls force f => do_labels s id ls force f
@@ -352,6 +373,7 @@ Definition run_cmd (s : state) (o : op) : state * res :=
   | OClean order f => do_clean s order f
   | OHeartbeat id f => do_heartbeat s id f
   | ORegion r stores => (do_region s r stores, ROk)
+  | OSetEnv e => (set_env s e, ROk)
   end.
 (* ---------- observations ---------- *)
 Definition view_served (x : sstore) : view :=
@@ -372,7 +394,7 @@ Definition run_op (s : state) (o : op) : state * obs :=
 Definition boot (cv : ver) (p : payload) : state :=
   let v := match p_ver p with Some v => v | None => (0, 0, 0) end in
   State [(p_id p, SStore (p_addr p) (p_state p) (p_pd p) (p_labels p) v 1 1 0 false)]
-        [(p_id p, Meta (p_addr p) (p_state p) (p_pd p) (p_labels p) v)] [] [] [] cv.
+        [(p_id p, Meta (p_addr p) (p_state p) (p_pd p) (p_labels p) v)] [] [] [] cv (Env [] false true).
 
 (* ---------- equality of observations ---------- *)
 Definition label_eqb (a b : label) : bool := String.eqb (fst a) (fst b) && String.eqb (snd a) (snd b).
@@ -380,7 +402,7 @@ Definition res_eqb (a b : res) : bool :=
   match a, b with
   | ROk, ROk | RNone, RNone | RNotFound, RNotFound | RTombstone, RTombstone | RDestroyed, RDestroyed
   | RIsUp, RIsUp | RHasPeers, RHasPeers | RInvalid, RInvalid | RVersion, RVersion | RDupAddr, RDupAddr | RStorage, RStorage
-  | RGrpcTombstone, RGrpcTombstone | RPanic, RPanic | RBad, RBad => true
+  | RGrpcTombstone, RGrpcTombstone | RPanic, RPanic | RBad, RBad | RLabel, RLabel | RTiFlash, RTiFlash => true
   | _, _ => false
   end.
 (* lifecycle / identity projection: everything but the region-count statistic *)
@@ -638,3 +660,83 @@ Definition explain_o (cs : list ocase) : list (nat * (res * res) * (res * res) *
     let s := run_state run_op (boot cv p) setup in
     let '(ra1, rb1, _) := seq_outcome s a b in let '(rb2, ra2, _) := seq_outcome s b a in
     [(fst ic, (oo_ra o, oo_rb o), (ra1, rb1), (ra2, rb2))]) (number_from 0 cs).
+
+(* ---------- several failing writes in one operation (the restoring writes can fail too) ----------
+   The operations above assume at most one failing write per operation: the writes that put the weight keys back after
+   a failure succeed.  This layer follows Storage.SaveStoreWeight / Storage.DeleteStore / RaftCluster.SetStoreWeight write by
+   write with a SET of failing writes (absolute index among the writes the operation issues for this store, as the harness
+   counts them), the restoring writes included; their errors are ignored by the code ("best effort"). *)
+Definition mfault := list (nat * fkind).
+Fixpoint wrm (mf : mfault) (idx : nat) : bool * bool :=
+  match mf with
+  | [] => (true, true)
+  | (i, k) :: r => if Nat.eqb i idx then match k with FBefore => (false, false) | FAfter => (true, false) end else wrm r idx
+  end.
+Definition set_lw (s : state) (m : amap Z) : state := State (served s) (st_meta s) m (st_rw s) (regions s) (cver s) (cenv s).
+Definition set_rw (s : state) (m : amap Z) : state := State (served s) (st_meta s) (st_lw s) m (regions s) (cver s) (cenv s).
+(* Storage.restoreWeight on both keys: two writes, errors ignored *)
+Definition restore_m (s : state) (id : Z) (oldL oldR : option Z) (mf : mfault) (n : nat) : state * nat :=
+  let s1 := if fst (wrm mf n) then set_lw s (restore_w (st_lw s) id oldL) else s in
+  let s2 := if fst (wrm mf (S n)) then set_rw s1 (restore_w (st_rw s1) id oldR) else s1 in
+  (s2, S (S n)).
+(* Storage.SaveStoreWeight: returns the state, whether it succeeded, and the next write index *)
+Definition save_weight_m (s : state) (id lw rw : Z) (mf : mfault) (n : nat) : state * bool * nat :=
+  let oldL := aget (st_lw s) id in let oldR := aget (st_rw s) id in
+  let '(a0, ok0) := wrm mf n in
+  let s0 := if a0 then write_lw s id lw else s in
+  if negb ok0 then let '(s', n') := restore_m s0 id oldL oldR mf (S n) in (s', false, n') else
+  let '(a1, ok1) := wrm mf (S n) in
+  let s1 := if a1 then write_rw s0 id rw else s0 in
+  if negb ok1 then let '(s', n') := restore_m s1 id oldL oldR mf (S (S n)) in (s', false, n') else (s1, true, S (S n)).
+Definition do_weight_m (s : state) (id lw rw : Z) (mf : mfault) : state * res :=
+  match sv s id with
+  | None => (s, RNotFound)
+  | Some x =>
+      let '(s1, ok, n1) := save_weight_m s id lw rw mf 0 in
+      if negb ok then (s1, RStorage) else
+      let x' := SStore (s_addr x) (s_state x) (s_pd x) (s_labels x) (s_ver x) lw rw (s_rcf x) (s_hbp x) in
+      let '(a2, ok2) := wrm mf n1 in
+      let s2 := if a2 then write_meta s1 id (meta_of x') else s1 in
+      if ok2 then (set_served s2 id x', ROk)
+      else (fst (fst (save_weight_m s2 id (s_lw x) (s_rw x) mf (S n1))), RStorage)   (* SetStoreWeight saves the served weights again *)
+  end.
+Definition delete_store_m (s : state) (id : Z) (mf : mfault) : state * bool :=
+  let oldL := aget (st_lw s) id in let oldR := aget (st_rw s) id in
+  let '(a0, ok0) := wrm mf 0 in
+  let s0 := if a0 then set_lw s (adel (st_lw s) id) else s in
+  if negb ok0 then (fst (restore_m s0 id oldL oldR mf 1), false) else
+  let '(a1, ok1) := wrm mf 1 in
+  let s1 := if a1 then set_rw s0 (adel (st_rw s0) id) else s0 in
+  if negb ok1 then (fst (restore_m s1 id oldL oldR mf 2), false) else
+  let '(a2, ok2) := wrm mf 2 in
+  let s2 := if a2 then del_meta s1 id else s1 in
+  if negb ok2 then (fst (restore_m s2 id oldL oldR mf 3), false) else (s2, true).
+(* RemoveTombStoneRecords when store id is the only tombstone without region peers *)
+Definition do_clean_one_m (s : state) (id : Z) (mf : mfault) : state * res :=
+  let '(s1, ok) := delete_store_m s id mf in if ok then (del_served s1 id, ROk) else (s1, RStorage).
+
+Inductive mop := MWeight (id lw rw : Z) | MCleanOne (id : Z).
+Definition run_mop (s : state) (o : mop) (mf : mfault) : state * res :=
+  match o with MWeight id lw rw => do_weight_m s id lw rw mf | MCleanOne id => do_clean_one_m s id mf end.
+(* one case: boot, set-up operations (single-fault model), the operation with its failing writes, the observation *)
+Definition mcase := (ver * payload * list op * mop * mfault * obs)%type.
+Definition check_mcase (c : mcase) : bool :=
+  let '(cv, p, setup, o, mf, got) := c in
+  let s := run_state run_op (boot cv p) setup in
+  let '(s', r) := run_mop s o mf in obs_eqb (snapshot s' r) got.
+Definition mmismatches (cs : list mcase) : list nat :=
+  map fst (filter (fun ic : nat * mcase => negb (check_mcase (snd ic))) (number_from 0 cs)).
+(* the guarantee that survives any number of failing writes: an operation that reports an error leaves what is served as it was;
+   what is stored for OTHER stores too; (the stored weight keys of this store may then differ from the served weights) *)
+Definition monitor_m (c : mcase) : list string :=
+  let '(cv, p, setup, o, mf, got) := c in
+  let before := snapshot (run_state run_op (boot cv p) setup) ROk in
+  let id := match o with MWeight id _ _ | MCleanOne id => id end in
+  if res_eqb (o_res got) ROk then
+    (if list_eqb entry_eqb (o_served got) (o_stored got) then [] else ["C14:stored-differs-from-served-after-success"])
+  else
+    (if list_eqb entry_eqb (o_served before) (o_served got) then [] else ["C14:failed-op-changed-served"]) ++
+    (if list_eqb entry_eqb (filter (fun e => negb (fst e =? id)) (o_stored before)) (filter (fun e => negb (fst e =? id)) (o_stored got))
+     then [] else ["C14:failed-op-changed-another-stores-record"]).
+Definition monitor_m_fails (cs : list mcase) : list (nat * string) :=
+  flat_map (fun ic : nat * mcase => map (fun sg => (fst ic, sg)) (monitor_m (snd ic))) (number_from 0 cs).
